@@ -1,0 +1,14 @@
+//go:build verif
+
+package vm
+
+// VerifMultisigYield, when set by the verification harness, is called by every
+// CheckMultisigPar worker before it publishes a verification result, so that
+// the harness decides the order in which results arrive.
+var VerifMultisigYield func(signum int)
+
+func verifMultisigYield(signum int) {
+	if f := VerifMultisigYield; f != nil {
+		f(signum)
+	}
+}
